@@ -1,6 +1,7 @@
 package transform
 
 import (
+	"fmt"
 	"reflect"
 )
 
@@ -52,11 +53,11 @@ func (a AnonymousFlattenMangler) Mangle(sf reflect.StructField) ([]reflect.Struc
 }
 
 // bool return value indicates whether all fields are nil (and as such, a nil value should be returned for pointer-types)
-func (a AnonymousFlattenMangler) unmangleStruct(sf reflect.StructField, fvs []FieldValueTuple) (reflect.Value, bool) {
+func (a AnonymousFlattenMangler) unmangleStruct(sf reflect.StructField, fvs []FieldValueTuple) (reflect.Value, bool, error) {
 	out := reflect.New(sf.Type).Elem()
 	if len(fvs) == 0 {
 		// no fields made it, just return out.
-		return out, true
+		return out, true, nil
 	}
 	fvsIdx := 0
 	allNil := true
@@ -64,9 +65,13 @@ func (a AnonymousFlattenMangler) unmangleStruct(sf reflect.StructField, fvs []Fi
 		oft := sf.Type.Field(i)
 		if oft.Name == fvs[fvsIdx].Field.Name {
 			// named scalar types arrive with their underlying type from e.g. the StringCastingMangler
-			if fv, ok := assignableOrConverted(fvs[fvsIdx].Value, oft.Type); ok {
-				fvs[fvsIdx].Value = fv
+			fv, ok := assignableOrConverted(fvs[fvsIdx].Value, oft.Type)
+			if !ok {
+				// Set would panic
+				return reflect.Value{}, false, fmt.Errorf("incompatible types for field %q: expected %s; got %s",
+					oft.Name, oft.Type, fvs[fvsIdx].Value.Type())
 			}
+			fvs[fvsIdx].Value = fv
 			out.Field(i).Set(fvs[fvsIdx].Value)
 			switch fvs[fvsIdx].Value.Kind() {
 			// check for nil-able types
@@ -82,7 +87,7 @@ func (a AnonymousFlattenMangler) unmangleStruct(sf reflect.StructField, fvs []Fi
 			fvsIdx++
 		}
 	}
-	return out, allNil
+	return out, allNil, nil
 }
 
 // Unmangle is called for every source-field->mangled-field
@@ -100,14 +105,17 @@ func (a AnonymousFlattenMangler) Unmangle(sf reflect.StructField, fvs []FieldVal
 		// It's a pointer. check for nil; strip off the pointer and recurse
 		msf := sf
 		msf.Type = sf.Type.Elem()
-		v, allNil := a.unmangleStruct(msf, fvs)
+		v, allNil, err := a.unmangleStruct(msf, fvs)
+		if err != nil {
+			return reflect.Value{}, err
+		}
 		if allNil {
 			return reflect.Zero(sf.Type), nil
 		}
 		return v.Addr(), nil
 	case reflect.Struct:
-		out, _ := a.unmangleStruct(sf, fvs)
-		return out, nil
+		out, _, err := a.unmangleStruct(sf, fvs)
+		return out, err
 	default:
 		// not a struct-typed anonymous field, just forward up the chain
 		return fvs[0].Value, nil
